@@ -1,9 +1,24 @@
 ; Spec prelude: axioms about uninterpreted mathematical functions.
-; Each block starts with "; needs: f g ..." and is included in a query only if
-; all listed function symbols occur in that query.
+; Each block starts with "; needs: f g ..." (internal names) and is included in a query only if
+; all listed function symbols occur in that query. Symbols are printed with the prefix "u.".
 
 ; needs: at
-(assert (forall ((o Int) (k Int)) (! (= (at o k) (+ o k)) :pattern ((at o k)))))
+(assert (forall ((o Int) (k Int)) (! (= (u.at o k) (+ o k)) :pattern ((u.at o k)))))
 
 ; needs: rmul
-(assert (forall ((x Real) (y Real)) (! (= (rmul x y) (rmul y x)) :pattern ((rmul x y)))))
+(assert (forall ((x Real) (y Real)) (! (= (u.rmul x y) (u.rmul y x)) :pattern ((u.rmul x y)))))
+
+; needs: exp
+(assert (forall ((x Real)) (! (> (u.exp x) 0.0) :pattern ((u.exp x)))))
+
+; needs: sqrtpi
+(assert (> u.sqrtpi 0.0))
+
+; needs: sqrtpi pi
+(assert (= (* u.sqrtpi u.sqrtpi) u.pi))
+
+; needs: pi
+(assert (and (> u.pi 3.14159) (< u.pi 3.1416)))
+
+; needs: lgammasign
+(assert (forall ((x Real)) (! (=> (> x 0.0) (= (u.lgammasign x) 1)) :pattern ((u.lgammasign x)))))
